@@ -21,6 +21,7 @@ from harness.lib.framework import Prop, coq_bool, coq_list, coq_N, coq_str
 
 INPUTS = {"a": "b", "b": "ab", "ab": "k", "k": "a", "h": "q", "c": 7, "t": True, "z": 0,
           "q": {"h": "a", "p": "ab"}, "a b": "a", "class": "a", "default": "b", "'a'": "k", "a'b": "h"}
+RUNTIME = {"outdir": "/out", "tmpdir": "/tmp"}      # = gstore of JsDeps/Model.v; self is null
 STRF = ["a", "b", "ab", "k", "h"]          # string-valued fields whose values are again field names
 IDENT = re.compile(r"^[A-Za-z_][A-Za-z0-9_]*$")
 RESERVED = {"class", "default", "in", "new", "function", "delete", "typeof", "null", "true", "var", "this"}
@@ -423,6 +424,140 @@ def in_fragmentF(lib, body):
     return all(okb_s(True, L, s) for s in prog) and "inputs" not in L
 
 
+# ---- section 7 of Model.v: the combined fragment --------------------------------------------------------------------
+def may_inpT(A, e):
+    k = e[0]
+    if k == "id":
+        return e[1] in A
+    if k == "paren":
+        return may_inpT(A, e[1])
+    if k == "cond":
+        return may_inpT(A, e[2]) or may_inpT(A, e[3])
+    if k == "assign":
+        return may_inpT(A, e[2])
+    return False
+
+
+def okt_e(br, A, e, why=None):
+    def no(msg):
+        if why is not None:
+            why.append(msg)
+        return False
+    k = e[0]
+    if k in ("num", "str", "bool", "id"):
+        return True
+    if k == "dot":
+        if not okt_e(br, A, e[1], why):
+            return False
+        if e[1][0] == "id":
+            return e[1][1] not in A or e[2] not in RESERVED_ALL or no("reserved-word field on an alias")
+        return (not may_inpT(A, e[1])) or no("member access on a non-identifier expression that may be the inputs object")
+    if k == "idx":
+        if not (okt_e(br, A, e[1], why) and okt_e(br, A, e[2], why)):
+            return False
+        if e[1][0] == "id":
+            return e[1][1] not in A or good_key(e[2]) or no("computed / non-string index on an alias of inputs")
+        return (not may_inpT(A, e[1])) or no("member access on a non-identifier expression that may be the inputs object")
+    if k == "add":
+        return okt_e(br, A, e[1], why) and okt_e(br, A, e[2], why)
+    if k == "cond":
+        return okt_e(br, A, e[1], why) and okt_e(True, A, e[2], why) and okt_e(True, A, e[3], why)
+    if k == "paren":
+        return okt_e(br, A, e[1], why)
+    if k == "assign":
+        if e[1] == "inputs":
+            return no("assignment to inputs")
+        if not okt_e(br, A, e[2], why):
+            return False
+        r = e[2]
+        if r[0] == "id":
+            if e[1] in A:
+                return (not br) or r[1] == "inputs" or no("alias re-bound to another identifier inside a branch")
+            return r[1] not in A or no("inconsistent alias set")
+        return (not may_inpT(A, r)) or no("alias flows through a non-identifier right-hand side")
+    if k == "call":
+        if e[1][0] != "id":
+            return no("call of a non-identifier callee (method call, function expression)")
+        for a in e[2]:
+            if not okt_e(br, A, a, why):
+                return False
+            if may_inpT(A, a):
+                return no("inputs or an alias passed as a call argument")
+        return True
+    return no("function expression")
+
+
+def okt_s(br, A, s, why=None):
+    def no(msg):
+        if why is not None:
+            why.append(msg)
+        return False
+    k = s[0]
+    if k == "var":
+        return True
+    if k == "vari":
+        return okt_e(br, A, s[2], why) and ((not may_inpT(A, s[2])) or no("inputs or an alias in a var initialiser"))
+    if k in ("expr", "ret"):
+        return okt_e(br, A, s[1], why)
+    if k == "if":
+        return okt_e(br, A, s[1], why) and all(okt_s(True, A, x, why) for x in s[2]) and all(okt_s(True, A, x, why) for x in s[3])
+    if k == "fun":
+        Lf = list(s[2]) + hoist_vars(s[3])
+        if br:
+            return no("function declaration inside a branch")
+        if not all(okb_s(False, Lf, x) for x in s[3]):
+            return no("function body outside the alias-free function fragment (outer variables, nesting, aliasing, "
+                      "self/runtime, method calls)")
+        return ("inputs" not in Lf and not any(x in A for x in Lf)) or no("function parameter/var shadows inputs or an alias")
+    return False
+
+
+def asg_e(e):
+    k = e[0]
+    if k in ("dot", "paren"):
+        return asg_e(e[1])
+    if k in ("idx", "add"):
+        return asg_e(e[1]) + asg_e(e[2])
+    if k == "cond":
+        return asg_e(e[1]) + asg_e(e[2]) + asg_e(e[3])
+    if k == "assign":
+        return ([(e[1], e[2][1])] if e[2][0] == "id" else []) + asg_e(e[2])
+    if k == "call":
+        return asg_e(e[1]) + [p for a in e[2] for p in asg_e(a)]
+    return []
+
+
+def asg_s(ss):
+    out = []
+    for s in ss:
+        if s[0] in ("vari",):
+            out += asg_e(s[2])
+        elif s[0] in ("expr", "ret"):
+            out += asg_e(s[1])
+        elif s[0] == "if":
+            out += asg_e(s[1]) + asg_s(s[2]) + asg_s(s[3])
+    return out
+
+
+def alias_set(prog):
+    asg = asg_s(prog)
+    A = ["inputs"]
+    for _ in range(len(asg)):
+        A = A + [x for (x, y) in asg if y in A and x not in A]
+    return A
+
+
+def in_fragmentT(lib, body, why=None):
+    prog = list(lib) + list(body)
+    A = alias_set(prog)
+    return all(okt_s(False, A, s, why) for s in prog)
+
+
+def in_fragmentC(lib, body):
+    return (in_fragmentT(lib, body) or in_fragmentF(lib, body)
+            or (not lib and all(ok_s(False, s) for s in body)))
+
+
 def _body(p):
     return p[1] if p[0] == "js" else [["ret", ["paren", p[1]]]]
 
@@ -441,6 +576,28 @@ def in_fragment_funs(case):
     return all(in_fragmentF(case.get("lib") or [], _body(p)) for p in case["parts"] if p[0] in ("js", "jsx"))
 
 
+def in_fragment_T(case):
+    """the new part of C31_sound_combined_partial (okT with the computed alias set) for every JS part."""
+    if case.get("parts") is None:
+        return False
+    return all(in_fragmentT(case.get("lib") or [], _body(p)) for p in case["parts"] if p[0] in ("js", "jsx"))
+
+
+def why_outside(case):
+    """The syntactic feature that keeps a (realworld) expression outside every proved fragment."""
+    if case.get("parts") is None:
+        return "not in the modelled ES5 subset: " + str(case.get("why_not_modelled"))
+    lib = case.get("lib") or []
+    for p in case["parts"]:
+        if p[0] == "ref" and p[1] == "inputs" and p[2] and p[2][0][0] == "idx":
+            return "parameter reference inputs[<number>]"
+        if p[0] in ("js", "jsx") and not in_fragmentC(lib, _body(p)):
+            why = []
+            in_fragmentT(lib, _body(p), why)
+            return why[0] if why else "other"
+    return "other"
+
+
 def seg_key_nonempty(g):
     return g[0] == "idx" or g[1].replace("\\'", "'").replace('\\"', '"') != ""
 
@@ -456,7 +613,7 @@ def in_fragment(case):
                 return False
         elif p[0] in ("js", "jsx"):
             b = _body(p)
-            if not (in_fragmentF(lib, b) or (not lib and all(ok_s(False, s) for s in b))):
+            if not in_fragmentC(lib, b):
                 return False
     return True
 
@@ -516,8 +673,10 @@ class Gen:
         rng = self.rng
         r = rng.random()
         base = self.inp(ctx)
-        if d > 3 or r < 0.15:
+        if d > 3 or r < 0.12:
             return self.strlit()
+        if r < 0.15:
+            return ["dot", ["id", "runtime"], rng.choice(["outdir", "tmpdir"])]
         if r < 0.45 and base:
             return self.access(base, rng.choice(STRF + ["a b"]))
         if r < 0.52 and base:
@@ -629,9 +788,15 @@ class Gen:
             for _ in range(rng.randrange(1, 3)):
                 lib.extend(self.plain_fun(ctx))
         body = []
+        aliasing = rng.random() < 0.5          # aliases in the outermost frame next to the functions (combined fragment)
         for _ in range(rng.choice([0, 1, 2, 3, 4])):
             r = rng.random()
-            if r < 0.3:
+            if aliasing and r < 0.2:
+                v = self.fresh("x")
+                body.append(["var", v])
+                body.append(["expr", ["assign", v, self.inp(ctx)]])
+                ctx.aliases.append(v)
+            elif r < 0.3:
                 v = self.fresh("s")
                 body.append(["vari", v, self.g_str(ctx, 1)])
                 ctx.strs.append(v)
@@ -935,7 +1100,7 @@ class C31(Prop):
             def eval(self, scan, jslib="", **kw):
                 code = cwl_utils.sandboxjs.code_fragment_to_js(scan, jslib)
                 prop.node_busy = True
-                prop.node.stdin.write(json.dumps({"code": code, "inputs": INPUTS, "runtime": {"cores": 1},
+                prop.node.stdin.write(json.dumps({"code": code, "inputs": INPUTS, "runtime": RUNTIME,
                                                   "universal": prop.universal}) + "\n")
                 prop.node.stdin.flush()
                 out = json.loads(prop.node.stdout.readline())
@@ -967,7 +1132,7 @@ class C31(Prop):
                 raise
             o["deps_err"] = type(e).__name__
         self.reads = []
-        ctx = self.ctypes.CWLParameterContext(inputs=self.Rec(INPUTS), self=None, runtime={"cores": 1})
+        ctx = self.ctypes.CWLParameterContext(inputs=self.Rec(INPUTS), self=None, runtime=dict(RUNTIME))
         try:
             self.cex.interpolate(text, ctx, jslib="\n".join(lib), fullJS=True, js_engine=self.Engine())
             o["ok"] = True
@@ -1005,6 +1170,10 @@ class C31(Prop):
             st_[1] += c.get("parts") is not None
             st_[2] += in_fragment(c)
             st_[3] += bool(o.get("ok"))
+            if not in_fragment(c):
+                rs = self._why.setdefault(c["src"].split(":")[0], {})
+                w = why_outside(c)
+                rs[w] = rs.get(w, 0) + 1
             if c.get("parts") is None:
                 return None
         if "deps" in o:
@@ -1022,25 +1191,31 @@ class C31(Prop):
                  + coq_list([coq_str(x) for x in o["reads"]]) + ")")
         frag = in_fragment(c)
         has_js = any(p[0] in ("js", "jsx") for p in c["parts"])
-        st_ = self._frag.setdefault(c["f"], [0, 0, 0, 0, 0])
+        st_ = self._frag.setdefault(c["f"], [0, 0, 0, 0, 0, 0])
         st_[0] += 1
         st_[1] += has_js
         st_[2] += frag and has_js
         st_[3] += has_js and in_fragment_alias(c)
         st_[4] += has_js and in_fragment_funs(c)
+        st_[5] += has_js and in_fragment_T(c)
         return (f"CCase {css(c.get('lib') or [])} {coq_list([cpart(p) for p in c['parts']])} "
                 f"{cinputs()} {d} {e} {coq_bool(frag)}")
 
     _frag: dict = {}
     _real: dict = {}
+    _why: dict = {}
 
     def extra_samples(self):
         tot = {k: {"cases": v[0], "with_js_part": v[1], "with_js_part_in_proved_fragment": v[2],
                    "…of_C31_sound_partial(aliases,no functions)": v[3],
-                   "…of_C31_sound_functions_partial(functions,no aliases)": v[4]}
+                   "…of_C31_sound_functions_partial(functions,no aliases)": v[4],
+                   "…of_okT(alias_set): aliases in the outermost frame + alias-free functions": v[5]}
                for k, v in sorted(self._frag.items())}
         real = {k: {"expressions": v[0], "translated_to_the_model_AST": v[1], "in_proved_fragment": v[2],
                     "evaluated_successfully_by_node(universal inputs)": v[3]} for k, v in sorted(self._real.items())}
+        for k in real:
+            real[k]["outside_the_proved_fragment_because"] = dict(sorted(self._why.get(k, {}).items(),
+                                                                         key=lambda kv: -kv[1]))
         return [{"realworld_expressions(repo = *.cwl under /repo; pkg = cwltool/tests + cwl_utils/testdata)": real,
                  "fragment_membership": tot,
                  "note": "cases (per kind) that lie inside the syntactic fragment on which C31_sound_partial is proved; "
